@@ -248,10 +248,11 @@ pub fn run_live(a: &Args) {
     let mut out = Out::new();
     let work = format!("{}/tmp", a.out);
     for case in 0..a.n {
-        let focus = ["c07", "c04", "c05"][(case % 3) as usize];
-        let mut plan = gen_plan(&mut rng, focus, &a.tier, case + 1);
+        let focus = ["c07", "c04", "c05", "c20"][(case % 4) as usize];
+        let mut plan = gen_plan(&mut rng, focus, &a.tier, case + 5);
         if plan.crash == 3 { plan.crash = 1; }
         plan.scen.threads.truncate(3);
+        if focus == "c20" { plan.skip = 1; }   // stacks that do not reference the principal mapping are left out
         if case == 0 && plan.napp == 0 { plan.scen.lines.push("appmem 0 100 4096".into()); plan.napp = 1; }   // the application-memory flush must be among the fault points
         let target = match Target::spawn(&plan.scen, &work) { Ok(t) => t, Err(e) => { out.notes.push(format!("spawn failed: {e}")); continue; } };
         // how many destination calls does a clean dump make?
@@ -303,8 +304,11 @@ pub fn run_live(a: &Args) {
                     out.count("run.error_returned");
                     let region = if fin.len() as u64 >= start { &fin[start as usize..] } else { &fin[0..0] };
                     // the call that failed may be the very first write: then nothing has reached the destination yet
-                    let ok = prefix_ok && (region.is_empty() || consistent_rs(region, 32, 18));
-                    if ok { r.u(case).u(1); } else { r.0 = format!("!after an injected I/O error ({label}) the destination is not a consistent truncated minidump (prefix untouched {prefix_ok}, region {} bytes)", region.len()); }
+                    let mut ok = prefix_ok && (region.is_empty() || consistent_rs(region, 32, 18));
+                    // ... and everything the streams present so far reference is present too
+                    let mut why = String::new();
+                    if ok && !region.is_empty() { if let Err(e) = crate::c01::references_inside(region) { ok = false; why = e; } }
+                    if ok { r.u(case).u(1); } else if !why.is_empty() { r.0 = format!("!after an injected I/O error ({label}) a stream already named by the directory references data that is not present: {why}"); } else { r.0 = format!("!after an injected I/O error ({label}) the destination is not a consistent truncated minidump (prefix untouched {prefix_ok}, region {} bytes)", region.len()); }
                     // a sample goes through the extracted predicate as well
                     if !region.is_empty() && region.len() < 400_000 && rng.chance(1, 4) { let mut jl = Line::new("c10_consistent"); jl.u(32).u(18).vec(region); out.case(jl.s(), "1", true); out.count("predicate.coq_judged"); }
                 }
@@ -312,9 +316,13 @@ pub fn run_live(a: &Args) {
             out.case(l.s(), r.s(), fail_at.is_some() || chunk.is_some() || start != 0);
             if snapshots {
                 let mut bad = None;
-                for (k, (written, content)) in dest.snaps.iter().enumerate() { if !*written { continue; } let region = &content[(start as usize).min(content.len())..]; if !consistent_rs(region, 32, 18) { bad = Some((k, region.len())); break; } }
+                let mut deep: Option<(usize, String)> = None;
+                for (k, (written, content)) in dest.snaps.iter().enumerate() { if !*written { continue; } let region = &content[(start as usize).min(content.len())..]; if !consistent_rs(region, 32, 18) { bad = Some((k, region.len())); break; }
+                    if deep.is_none() { if let Err(e) = crate::c01::references_inside(region) { deep = Some((k, e)); } } }
                 let mut l = Line::new("const"); l.u(case).u(2); let mut r = Line::bare();
-                match bad { None => { r.u(case).u(2); } Some((k, n)) => { r.0 = format!("!after destination call {k} of a live dump the {n} bytes written so far are not a consistent truncated minidump"); } }
+                match (bad, deep) { (None, None) => { r.u(case).u(2); }
+                    (Some((k, n)), _) => { r.0 = format!("!after destination call {k} of a live dump the {n} bytes written so far are not a consistent truncated minidump"); }
+                    (None, Some((k, e))) => { r.0 = format!("!after destination call {k} of a live dump a stream already named by the directory references data that is not present: {e}"); } }
                 out.count_n("snapshots.checked", dest.snaps.len() as u64);
                 out.case(l.s(), r.s(), true);
                 // two snapshots through the extracted predicate
